@@ -515,6 +515,31 @@ pub fn scenarios(tier: &str) -> Vec<Scenario> {
             }
         }
     }
+    // thorough: every byte offset of the stream is a read cut (one deviation)
+    if tier == "thorough" {
+        let svc = &services[0].1;
+        let mut extra = vec![];
+        for (n, r) in valid.iter().chain(mal.iter()) {
+            extra.push((format!("everycut:{n}"), vec![r.clone()]));
+        }
+        for (n1, r1) in pick(&["GET", "POSTcl5", "POSTc[3;ext,2]"]) {
+            for (n2, r2) in valid.iter().chain(mal.iter()) {
+                extra.push((format!("everycut:{n1}+{n2}"), vec![r1.clone(), r2.clone()]));
+            }
+        }
+        for (name, reqs) in extra {
+            let reqs = renumber(reqs);
+            let progs: Vec<HandlerProgram> = (0..reqs.len()).map(|_| svc()).collect();
+            let mut s = Scenario::new(&name, reqs, progs);
+            s.io.every_offset = true;
+            s.io.write_alts = false;
+            s.io.flush_alts = false;
+            s.io.shutdown_alts = false;
+            s.env.reorder = false;
+            s.env.budgets = vec![("read", 6)];
+            out.push(s);
+        }
+    }
     // oversized heads (need the dispatcher's read loop): > 128 KiB of header lines / one endless line
     {
         let svc = &services[0].1;
@@ -537,6 +562,9 @@ pub fn scenarios(tier: &str) -> Vec<Scenario> {
 }
 
 pub fn bound(sc: &Scenario, tier: &str) -> u32 {
+    if sc.name.starts_with("everycut:") {
+        return 2;
+    }
     let heavy = sc.name.contains("oversized");
     match (tier, heavy) {
         ("thorough", false) => 2,
